@@ -1,4 +1,4 @@
-module govcproto
+module govc
 
 go 1.22.0
 
